@@ -119,6 +119,16 @@ Theorem C04_legacy_refuted :
 Proof. exact legacy_refuted. Qed.
 Print Assumptions C04_legacy_refuted.
 
+(** Before the repair of the gap test ([templated_slice.start - templated_idx] on usize): when a child starts
+    before the running templated index (a rule moved code backwards under a templated ancestor) the wrapped
+    subtraction reads a gap and emits a patch with an inverted source range (a build with overflow checks
+    panics at that subtraction); the comparison of the repaired code emits well-formed ranges on the same tree. *)
+Theorem C04_iter_patches_legacy_refuted :
+  exists tf t, (exists p, In p (iter_patches_legacy tf t) /\ p_e p < p_s p) /\
+               (forall q, In q (iter_patches tf t) -> p_s q <= p_e q).
+Proof. exact iter_patches_legacy_refuted. Qed.
+Print Assumptions C04_iter_patches_legacy_refuted.
+
 (** Conflict side ("templated code is untouched"): over raw slices that tile the source, every raw
     slice a source range [a, b) overlaps is among the slices [raw_slices_spanning_source_slice]
     returns; hence a deletion / replacement reaching into a placeholder is a template conflict. *)
